@@ -542,6 +542,7 @@ type Axiom struct {
 
 type GhostVar struct {
 	Name, Type string
+	Local      bool // bookkeeping inside one function body: exempt from frames, never mentioned in modifies
 }
 
 type ChanMode struct {
@@ -640,11 +641,11 @@ func (ss *SpecSet) ReadSpecFile(path, pkgPrefix string) error {
 			ss.Axioms = append(ss.Axioms, &Axiom{Name: name, E: e, Src: rest, File: path})
 		case "ghost":
 			f := strings.Fields(rest)
-			if len(f) != 2 {
-				fail(rc.line, "ghost NAME TYPE")
+			if len(f) != 2 && !(len(f) == 3 && f[2] == "local") {
+				fail(rc.line, "ghost NAME TYPE [local]")
 				continue
 			}
-			ss.Ghosts[f[0]] = &GhostVar{f[0], f[1]}
+			ss.Ghosts[f[0]] = &GhostVar{Name: f[0], Type: f[1], Local: len(f) == 3}
 		case "chanmode":
 			f := strings.Fields(rest)
 			if len(f) != 2 {
